@@ -25,21 +25,21 @@ def main(tier, args):
     pipe = build_pipeline()
     res = vf.Result(); log = open(vf.BUILD + "/C12/log.txt", "w")
     quick = tier == "quick"
-    dl = 55 if quick else 1100
+    dl = 55 if quick else 1000
     jobs = []
-    # (1) parser half, engine I
-    nsplit = 8 if quick else 10
-    for s in range(nsplit):
-        jobs.append(("split:%d" % s, [parser, "split", str(s), str(nsplit), "0" if quick else "1"]))
-    nbytes = 3 if quick else 5
-    for s in range(nbytes):
-        jobs.append(("bytes:%d" % s, [parser, "bytes", str(s), str(nbytes), "5" if quick else "6"]))
-    for s in range(3):
-        jobs.append(("mut:%d" % s, [parser, "mut", str(s), "3"]))
-    # (2) pipeline half, engine H (fork per evaluation)
+    # (2) pipeline half, engine H (fork per evaluation) -- queued first, they run longest
     depth, maxreq = (6, 3) if quick else (8, 4)
     for cfg in (("unix", "epoll", 0), ("unix", "select", 0), ("tcp", "epoll", 1)):     # loopback TCP: one request fewer (slower, port churn)
         jobs.append(("pipe:%s-%s" % cfg[:2], [pipe, cfg[0], cfg[1], str(depth), str(maxreq - cfg[2])]))
+    # (1) parser half, engine I
+    nsplit = 8 if quick else 12
+    for s in range(nsplit):
+        jobs.append(("split:%d" % s, [parser, "split", str(s), str(nsplit), "0" if quick else "1"]))
+    nbytes = 3 if quick else 6
+    for s in range(nbytes):
+        jobs.append(("bytes:%d" % s, [parser, "bytes", str(s), str(nbytes), "5" if quick else "6"]))
+    for s in range(3):
+        jobs.append(("mut:%d" % s, [parser, "mut", str(s), "3", "80" if quick else "400"]))
     if args.only:
         jobs = [j for j in jobs if j[0] == args.only or j[0].split(":")[0] == args.only]
     os.makedirs(vf.BUILD + "/C12/sock", exist_ok=True)
@@ -51,12 +51,12 @@ def main(tier, args):
                    "1-request streams: all, every split with <=%d cuts; 2-request streams (%s) and 3-request streams (covering subset^3): every split with <=2 cuts; every uniform chunk size incl. byte-by-byte; "
                    "oracle = request sequence (method,target,version,headers,body) equal to the unsplit stream and to the generator, parse() return <= size given; "
                    "(b) every byte string of length <=%d over {G,E,T,P,SP,/,:,CR,LF,H,1,.,0,x} behind 7 valid prefixes (one segment and prefix|bytes), "
-                   "~230 single-field mutations of a valid request x 3 contexts x every 1-cut (2-cut if short) split: no exception, ASan/UBSan clean, feed loop terminates. "
+                   "185 single-field mutations of a valid request x 3 contexts x every 1-cut (2-cut if <=%d bytes) split: no exception, ASan/UBSan clean, feed loop terminates. "
                    "(H) real http::server::Server + TcpServer + loop (epoll, select) over a real unix-domain / loopback TCP connection, single-threaded, fork per history: "
                    "BFS over histories of depth <=%d with <=%d requests of: request(kind keep-alive|Connection: close|HTTP/1.0, handler completes in the callback or 1|2 loop passes later, "
                    "sent alone | glued to the next request in one segment | cut in two segments), and loop passes; "
                    "oracle after settling: one response per delivered request, in request order (tagged bodies), nothing after the response to the closing request, EOF after it"
-                   % (2 if quick else 3, "covering subset^2" if quick else "all x covering subset both ways", 5 if quick else 6, depth, maxreq),
+                   % (2 if quick else 3, "covering subset^2" if quick else "all x covering subset both ways", 5 if quick else 6, 80 if quick else 400, depth, maxreq),
               assumptions=["every request of a segmentation-independence stream declares Content-Length; canonical header spelling (DESIGN 1.7)",
                            "the client writes a segment, then the loop runs one pass; segments written without a pass in between coalesce into one receive",
                            "handlers complete on the loop thread (the shared Context is released from a loop callback)",
